@@ -13,7 +13,7 @@ IF T% MOD 4 = 0 THEN
   CASE IS > 5
     T% = T% + 1
     PRINT "3b"; T%
-  CASE 2, 3
+  CASE 2, 3 TO 3, 4
     T% = T% + 1
     PRINT "3c"; T%
   CASE ELSE
